@@ -181,6 +181,14 @@ impl Scenario for IsoScen {
             w.probes.hit("replayed_initial_accepted");
             return;
         }
+        // a late copy of an Initial of a pair that was closed on purpose meanwhile gives rise to a
+        // server connection nobody will ever complete (and which the client's packets for its
+        // predecessor may confuse): it has no application and nothing is expected of it
+        let origin = w.dgrams[dgram as usize].origin_inc;
+        if self.closed_keys.contains(&origin) {
+            w.probes.hit("zombie_connection_for_closed_pair");
+            return;
+        }
         self.b.on_accepted(w, inc, dgram)
     }
     fn on_event(&mut self, w: &mut World, inc: u32, ev: quinn_proto::Event) {
